@@ -86,6 +86,39 @@ func SelfTest() error {
 			return fmt.Errorf("harness races: canary mode %d flagged in %d of %d runs (want none)", mode, flagged, runs)
 		}
 	}
+	// Pool canaries: objects passed through a simulated pool carry the
+	// Put-before-Get edge (proper use is never reported) and nothing more (a
+	// write after Put is reported when another thread received the object).
+	type pobj struct{ n int }
+	for mode := 0; mode < 2; mode++ {
+		flagged := 0
+		for i := 0; i < runs; i++ {
+			pool := &simsync.Pool{New: func() any { return new(pobj) }}
+			body := func(int) {
+				for k := 0; k < 3; k++ {
+					x := pool.Get().(*pobj)
+					x.n++
+					pool.Put(x)
+					if mode == 1 {
+						x.n++ // use after Put
+					}
+				}
+			}
+			r := sched.Run(ch, sched.Config{}, []func(int){body, body, body})
+			if r.Deadlock || len(r.Panics) > 0 {
+				return fmt.Errorf("pool canary mode %d: deadlock=%v panics=%v", mode, r.Deadlock, r.Panics)
+			}
+			if r.Races > 0 {
+				flagged++
+			}
+		}
+		if mode == 0 && flagged != 0 {
+			return fmt.Errorf("harness races: proper use of the simulated pool flagged in %d of %d runs", flagged, runs)
+		}
+		if mode == 1 && flagged == 0 {
+			return fmt.Errorf("race detector is blind: use after Put never flagged in %d runs", runs)
+		}
+	}
 	// Deadlock detection canary: two threads take two mutexes in opposite order
 	// under a schedule that interleaves them.
 	dead := 0
